@@ -51,6 +51,7 @@ class Unit:
         self.rule_counts = {}
         self.trusted = []      # external_body / axiom / assume lines
         self.casts = {}
+        self.lemmas = []
 
     def emit(self, text, origin):
         for l in text.split("\n"):
@@ -124,6 +125,13 @@ def build(unit_path, repo):
             p = os.path.join(VERIF, "prelude", arg.strip())
             txt = open(p).read().rstrip("\n")
             u.emit(txt, ("spec", "prelude/" + arg.strip()))
+            i += 1
+        elif d == "@lemma":
+            from . import lemma as LM
+            toks = arg.split()
+            L = LM.load(toks[0])
+            u.emit(LM.verus_axiom(L, spec_names=set(toks[1:])), ("spec", "lemmas/%s.lem" % toks[0]))
+            u.lemmas.append(toks[0])
             i += 1
         elif d == "@rules":
             groups = arg.split(); i += 1
@@ -395,10 +403,15 @@ def _emit_insert(u, lines, fn, spec, where, fnrec):
     """inserted proof text; a trailing `//[id|Cxx,..]` marker makes the assert ending on that line a
     named obligation (all lines back to the line starting with `assert`)."""
     start_idx = len(u.out)
+    cur_props = []
     for l in lines:
         m = _MARK.search(l)
+        if m and m.group(1) == "hint" and not l[:m.start()].strip():
+            # block marker: following unlabelled proof lines serve these properties
+            cur_props = [p for p in (m.group(2) or "").split(",") if p]
+            continue
         if not m:
-            u.out.append((TAG + l, ("spec", where)))
+            u.out.append((TAG + l, ("ins", where, fn, list(cur_props))))
             continue
         l2 = l[:m.start()]
         c = Clause("assert", m.group(1), [p for p in (m.group(2) or "").split(",") if p], l2.strip(), fn)
@@ -410,7 +423,7 @@ def _emit_insert(u, lines, fn, spec, where, fnrec):
         c.lines.append(k + 1)
         # walk back to the line where this assert starts
         j = k
-        while j > start_idx and not u.out[j][0][len(TAG):].lstrip().startswith("assert"):
+        while j > start_idx and not re.match(r"assert\b", u.out[j][0][len(TAG):].lstrip()):
             j -= 1
             u.out[j] = (u.out[j][0], ("clause", c))
             c.lines.append(j + 1)
